@@ -182,6 +182,10 @@ fn gen_after_new(src: &mut Src, cfg: &Cfg, st: &mut State) -> Node {
             None => st.abs_time = Some(time),
         }
     }
+    if cfg.wide_locks && !time && src.chance(1, 8) {
+        // where the script-number encoding changes width (OP_16 / 1 / 2 / 3 / 4 bytes)
+        return Node::After(*src.pick(&[16u32, 17, 0x7f, 0x80, 0xff, 0x100, 0x7fff, 0x8000, 0xffff, 0x1_0000, 0x7f_ffff, 0x80_0000]));
+    }
     if cfg.wide_locks && src.chance(1, 4) {
         // any value of the unit's range
         let v = if time { 500_000_000 + src.u32() % (0x8000_0000 - 500_000_000) } else { 1 + src.u32() % 499_999_999 };
@@ -210,6 +214,10 @@ fn gen_older_new(src: &mut Src, cfg: &Cfg, st: &mut State) -> Node {
             Some(t) => time = t,
             None => st.rel_time = Some(time),
         }
+    }
+    if cfg.wide_locks && !time && src.chance(1, 8) {
+        // where the script-number encoding changes width
+        return Node::Older(*src.pick(&[16u32, 17, 0x7f, 0x80, 0xff, 0x100, 0x7fff, 0x8000, 0xffff, 0x1_7fff, 0x1_8000]));
     }
     if cfg.wide_locks && src.chance(1, 4) {
         // any BIP68-enabled value: random low 16 bits, the unit flag, and (often) bits that BIP68
